@@ -41,7 +41,7 @@ WORDS = ['\U0001F600', 'prog', 'arg1', '-f', 'x', '-r', '--run', '-g', '--gdb', 
 
 def plan(tier, seed):
     if tier == 'quick':
-        return [{'n': 1500, 'run': 1, 'gdb': 6} for _ in range(16)]
+        return [{'n': 1500, 'run': 2, 'gdb': 6} for _ in range(16)]
     return [{'n': 8000, 'run': 20, 'gdb': 60} for _ in range(48)]
 
 
@@ -207,8 +207,17 @@ def run_mode_e2e(ctx, rng, d):
         os.unlink(report)
     with open(planf, 'w') as f:
         json.dump({'report': report, 'stderr_chunks': [[b'[1.000]  -> wl_display@1.sync(new id wl_callback@2)\n'.hex(), 0]], 'exit': 0}, f)
-    cmd = ['/venv/bin/python', os.path.join(env.REPO, 'main.py')] + left + [marker, '/venv/bin/python', os.path.join(HELPERS, 'child.py')] + words
     e2 = dict(os.environ, VERIF_CHILD_PLAN=planf)
+    prog = '/venv/bin/python'
+    if rng.random() < 0.5:
+        # the program given by a bare name that PATH resolves: it is forwarded as given, not as the path it resolves to
+        bindir = os.path.join(d, 'bin')
+        os.makedirs(bindir, exist_ok=True)
+        if not os.path.lexists(os.path.join(bindir, 'vq-python')):
+            os.symlink(os.path.realpath('/venv/bin/python'), os.path.join(bindir, 'vq-python'))
+        e2['PATH'] = bindir + os.pathsep + e2.get('PATH', '')
+        prog = 'vq-python'
+    cmd = ['/venv/bin/python', os.path.join(env.REPO, 'main.py')] + left + [marker, prog, os.path.join(HELPERS, 'child.py')] + words
     r = subprocess.run(cmd, input=b'quit\n', stdout=subprocess.PIPE, stderr=subprocess.PIPE, timeout=120, env=e2)
     ctx.ev()
     ctx.count('run_mode_processes')
@@ -217,6 +226,8 @@ def run_mode_e2e(ctx, rng, d):
         ctx.violation('run-child-not-started', 'child did not report; exit %d stderr %r' % (r.returncode, r.stderr[-300:]), case)
         return
     rep = json.load(open(report))
+    if prog == 'vq-python' and rep.get('argv0') != prog:
+        ctx.violation('run-argv', 'the program was named %r after the marker and started as %r' % (prog, rep.get('argv0')), case)
     if rep['argv'] != words:
         ctx.violation('run-argv', 'child got %r, forwarded words are %r' % (rep['argv'], words), case)
     ctx.sig(cmd)
